@@ -25,6 +25,8 @@ inductive LogEntry where
   | draw (bits : F32)
   | sampled (mi : Nat) (event : Nat) (next : Nat)
   | distRaw (bits : F64)
+  | counter (mi : Nat) (aOld aNew bOld bNew : Nat)
+  | limit (mi : Nat) (value : Nat) (decrement : Bool)
   deriving Repr, DecidableEq, Inhabited
 
 inductive SignalTarget where
@@ -47,6 +49,10 @@ structure Runtime where
   stateLimit : Nat
   counterA : Nat
   counterB : Nat
+  /-- counter A of this machine already raised CounterZero in the current call -/
+  zeroedA : Bool
+  /-- counter B of this machine already raised CounterZero in the current call -/
+  zeroedB : Bool
   acct : RtAcct
   deriving Repr, DecidableEq, Inhabited
 
@@ -76,8 +82,6 @@ structure Fw (σ : Type) where
   rt : List Runtime
   actions : List (Option TAction)
   signalPending : Option SignalTarget
-  zeroedA : Bool
-  zeroedB : Bool
   rng : σ
   fault : Option Fault
   log : List LogEntry
@@ -289,35 +293,60 @@ def enterState (mi : Nat) (m : Machine) (cur next : Nat) (s : Fw σ) : Fw σ :=
       match nst.action with
       | some a =>
         let (l, s) := sampleLimit ρ a s
-        s.modRt mi (fun r => { r with stateLimit := l })
-      | none => s.modRt mi (fun r => { r with stateLimit := STATE_LIMIT_MAX })
+        (s.modRt mi (fun r => { r with stateLimit := l })).push (.limit mi l false)
+      | none =>
+        (s.modRt mi (fun r => { r with stateLimit := STATE_LIMIT_MAX })).push (.limit mi STATE_LIMIT_MAX false)
   else s
 
-/-- record a signal from machine `mi` -/
+/-- record a signal from machine `mi`: a lone signaller is excluded, however often it signals;
+    a signal from a second machine widens the target to all -/
 def signalFrom (mi : Nat) (s : Fw σ) : Fw σ :=
   { s with signalPending := match s.signalPending with
       | none => some (.allExcept mi)
-      | some _ => some .all }
+      | some (.allExcept other) => if other = mi then some (.allExcept mi) else some .all
+      | some .all => some .all }
+
+/-- has counter A / B of machine `mi` already raised CounterZero in this call -/
+def zeroedAOf (s : Fw σ) (mi : Nat) : Bool := match s.rt[mi]? with | some r => r.zeroedA | none => false
+def zeroedBOf (s : Fw σ) (mi : Nat) : Bool := match s.rt[mi]? with | some r => r.zeroedB | none => false
+
+/-- the operand of a counter update: the other counter's pre-transition value for `copy`,
+    otherwise the sampled value (1 without a distribution) -/
+def counterOperand (c : Counter) (other : Nat) (s : Fw σ) : Nat × Fw σ :=
+  if c.copy then (other, s) else sampleValue ρ c s
+
+/-- store the new value of counter A and raise "zeroed" if it went from non-zero to zero and this
+    machine's flag for A is still unset -/
+def storeCounterA (mi : Nat) (oldA newA : Nat) (s : Fw σ) : Fw σ × Bool :=
+  let s := s.modRt mi (fun r => { r with counterA := newA })
+  if oldA ≠ 0 && newA = 0 && !zeroedAOf s mi then (s.modRt mi (fun r => { r with zeroedA := true }), true)
+  else (s, false)
+
+def storeCounterB (mi : Nat) (oldB newB : Nat) (s : Fw σ) : Fw σ × Bool :=
+  let s := s.modRt mi (fun r => { r with counterB := newB })
+  if oldB ≠ 0 && newB = 0 && !zeroedBOf s mi then (s.modRt mi (fun r => { r with zeroedB := true }), true)
+  else (s, false)
 
 /-- counter A part of `update_counter`; returns the new framework and whether A was zeroed -/
 def applyCounterA (mi : Nat) (c : Option Counter) (oldA oldB : Nat) (s : Fw σ) : Fw σ × Bool :=
   match c with
   | none => (s, false)
   | some c =>
-    let (change, s) := if c.copy then (oldB, s) else sampleValue ρ c s
-    let newA := applyOp c.operation oldA change
-    let s := s.modRt mi (fun r => { r with counterA := newA })
-    if oldA ≠ 0 && newA = 0 && !s.zeroedA then ({ s with zeroedA := true }, true) else (s, false)
+    let p := counterOperand ρ c oldB s
+    storeCounterA mi oldA (applyOp c.operation oldA p.1) p.2
 
 /-- counter B part of `update_counter` -/
 def applyCounterB (mi : Nat) (c : Option Counter) (oldA oldB : Nat) (s : Fw σ) : Fw σ × Bool :=
   match c with
   | none => (s, false)
   | some c =>
-    let (change, s) := if c.copy then (oldA, s) else sampleValue ρ c s
-    let newB := applyOp c.operation oldB change
-    let s := s.modRt mi (fun r => { r with counterB := newB })
-    if oldB ≠ 0 && newB = 0 && !s.zeroedB then ({ s with zeroedB := true }, true) else (s, false)
+    let p := counterOperand ρ c oldA s
+    storeCounterB mi oldB (applyOp c.operation oldB p.1) p.2
+
+/-- current value of counter A of machine `mi` (0 if there is no such machine) -/
+def counterAOf (s : Fw σ) (mi : Nat) : Nat := match s.rt[mi]? with | some r => r.counterA | none => 0
+/-- current value of counter B of machine `mi` -/
+def counterBOf (s : Fw σ) (mi : Nat) : Nat := match s.rt[mi]? with | some r => r.counterB | none => 0
 
 mutual
 
@@ -371,12 +400,13 @@ def updateCounter : Nat → Nat → Fw σ → Fw σ × Bool × Bool
       | some st =>
         let ra := applyCounterA ρ mi st.counterA r.counterA r.counterB s
         let rb := applyCounterB ρ mi st.counterB r.counterA r.counterB ra.1
+        let s2 := rb.1.push (.counter mi r.counterA (counterAOf rb.1 mi) r.counterB (counterBOf rb.1 mi))
         if ra.2 || rb.2 then
-          let res := transition fuel mi .counterZero rb.1
+          let res := transition fuel mi .counterZero s2
           match res.1.actions[mi]? with
           | none => (res.1.withFault .oob, true, res.2)
           | some a => (res.1, a.isNone, res.2)
-        else (rb.1, true, false)
+        else (s2, true, false)
     | _, _ => (s.withFault .oob, true, false)
 
 end
@@ -388,7 +418,7 @@ def decrementLimit (mi : Nat) (s : Fw σ) : Fw σ :=
   match s.rt[mi]?, s.machines[mi]? with
   | some r, some m =>
     let lim := if r.stateLimit > 0 then r.stateLimit - 1 else r.stateLimit
-    let s := s.modRt mi (fun r => { r with stateLimit := lim })
+    let s := (s.modRt mi (fun r => { r with stateLimit := lim })).push (.limit mi lim true)
     match m.states[r.currentState]? with
     | none => s.withFault .oob
     | some st =>
@@ -480,7 +510,8 @@ def signalRound (s : Fw σ) : Fw σ :=
 
 /-- the start of `trigger_events`: clear the slots and the counter-zero flags, take the new time -/
 def Fw.callStart (s : Fw σ) (t : Int) : Fw σ :=
-  { s with actions := s.actions.map (fun _ => none), zeroedA := false, zeroedB := false,
+  { s with actions := s.actions.map (fun _ => none),
+           rt := s.rt.map (fun r => { r with zeroedA := false, zeroedB := false }),
            g := { s.g with now := t } }
 
 /-- `Framework::trigger_events`; the returned actions are `actionsOut` of the result -/
@@ -499,13 +530,13 @@ variable {σ : Type} (ρ : Oracle σ)
 def Fw.init0 (machines : List Machine) (fp fb : F64) (t0 : Int) (rng : σ) : Fw σ :=
   { machines := machines,
     rt := machines.map fun m =>
-      ({ currentState := 0, stateLimit := 0, counterA := 0, counterB := 0,
+      ({ currentState := 0, stateLimit := 0, counterA := 0, counterB := 0, zeroedA := false, zeroedB := false,
          acct := { paddingSent := 0, normalSent := 0, blockingDur := 0, machineStart := t0,
                    allowedBlocked := m.allowedBlockedMicrosec * 1000 } } : Runtime),
     actions := machines.map (fun _ => none),
     g := { now := t0, maxPaddingFrac := fp, maxBlockingFrac := fb, normalSent := 0, paddingSent := 0,
            blockingDur := 0, blockingStarted := t0, blockingActive := false, start := t0 },
-    signalPending := none, zeroedA := false, zeroedB := false, rng := rng, fault := none, log := [] }
+    signalPending := none, rng := rng, fault := none, log := [] }
 
 /-- sampling the limit of state 0 of machine `mi` at construction -/
 def initLimit (s : Fw σ) (mi : Nat) : Fw σ :=
